@@ -13,6 +13,7 @@ let () =
       | "E" :: t -> G_enc.cmd_enc t
       | "T" :: t -> G_time.cmd_time t
       | "D" :: t -> G_dec.cmd_dec t
+      | "S" :: t -> G_val.cmd_struct t
       | c :: t -> if not (More.cmd_more c t) then out ("? unknown command " ^ c)
     end
   done with End_of_file -> ());
